@@ -20,6 +20,11 @@ struct LogWriter {
   size_t write(const uint8_t* s, size_t n);
 };
 
+// string-builder sink without body: Utf8::encodeCodepoint<LogBuilder> calls the extern C function LogBuilder__append
+struct LogBuilder {
+  void append(char c);
+};
+
 template class ArduinoJson::detail::JsonDeserializer<StubReader>;
 template class ArduinoJson::detail::MsgPackDeserializer<StubReader>;
 template class ArduinoJson::detail::JsonSerializer<LogWriter>;
@@ -33,6 +38,9 @@ template struct ArduinoJson::detail::Reader<const char*>;
 template struct ArduinoJson::detail::BoundedReader<const char*>;
 
 namespace force {
+void utf8_log(uint32_t cp, LogBuilder& b) {
+  Utf8::encodeCodepoint(cp, b);
+}
 using DeserializationOption::Filter;
 using DeserializationOption::NestingLimit;
 
